@@ -48,6 +48,19 @@ theorem write_wrap_roundtrip (h s : List UInt8) (w : Nat) (hw : 0 < w) (hh : Hea
     ∃ out r, Write.faOwnedWrap h s w = some out ∧ Spec.fasta out = .records [r] ∧ r.head = h ∧ r.seq = s :=
   WriteProofs.fasta_wrap_roundtrip h s w hw hh hs
 
+/-- `RefRecord::write` (header, then the record's sequence lines through `write_seq_iter`) writes
+what `write_to` writes for the concatenated sequence – so it round-trips too -/
+theorem ref_record_write_eq (h : List UInt8) (lines : List (List UInt8)) :
+    Write.faRefWrite h lines = Write.faTo h lines.flatten := by
+  simp [Write.faRefWrite, Write.faTo, Write.seqIter, Write.seq]
+
+/-- `RefRecord::write_wrap` (lines through `write_wrap_seq_iter`) equals `OwnedRecord::write_wrap` of the
+concatenated sequence, for a non-empty sequence and any line structure of the input record -/
+theorem ref_record_write_wrap_eq (h : List UInt8) (lines : List (List UInt8)) (w : Nat) (hw : 0 < w)
+    (hne : lines.flatten ≠ []) :
+    Write.faRefWrap h lines w = Write.faOwnedWrap h lines.flatten w := by
+  simp [Write.faRefWrap, Write.faOwnedWrap, WriteProofs.wrapSeqIter_eq_wrapSeq lines w hw hne]
+
 /-- non-vacuity: the hypotheses are satisfiable and the statement is about a real record -/
 example : HeadOk [105, 100, 32, 100] ∧ SeqOk [65, 67, 71, 84, 65, 67] ∧ (0 < 4) := by decide
 
